@@ -251,6 +251,26 @@ fn replay(line: &Value, e: &Embedding, want: &QWant, rep: &mut Report) {
     let spec_pos: Vec<i64> = line["pos"].as_array().unwrap().iter().map(|x| x.as_i64().unwrap()).collect();
     let spec_des: Vec<Rat> = line["des"].as_array().unwrap().iter().map(rat).collect();
     let tol = 64.0 * (cnt as f64) * U * xmax.max(e.b);
+    // oracle cross-check: one Step of qref (the f64 transcription used on long streams) from the
+    // specification's exact pre-state must reproduce the specification's post-state, unless the
+    // specification flags a tie at this step
+    if cnt >= 6 && !line["ctie"].as_bool().unwrap() && !line["ptie"].as_bool().unwrap() {
+        let pq: Vec<Rat> = line["prevq"].as_array().unwrap().iter().map(rat).collect();
+        let pp: Vec<i64> = line["prevpos"].as_array().unwrap().iter().map(|x| x.as_i64().unwrap()).collect();
+        let mut rf = crate::qref::QRef::new(p);
+        rf.cnt = cnt - 1;
+        for i in 0..5 {
+            rf.q[i] = emb_rat(e, pq[i]).0;
+            rf.n[i] = pp[i];
+            rf.m[i] = spec_des[i].to_f64() - rf.dm[i];
+        }
+        rf.add(xs[cnt - 1]);
+        rep.crosschecks += 1;
+        let same = (0..5).all(|i| rf.n[i] == spec_pos[i] && rf.m[i] == spec_des[i].to_f64() && close(rf.q[i], emb_rat(e, spec_q[i]).0, tol));
+        if !same {
+            rep.tool_errors.push(format!("qref disagrees with Quantile.tla's Step on {:?} p={}: {:?} {:?} vs {:?} {:?}", data, p, rf.q, rf.n, spec_q.iter().map(|r| emb_rat(e, *r).0).collect::<Vec<_>>(), spec_pos));
+        }
+    }
     // pre-state
     let mut exact_pre = true;
     if cnt >= 6 {
